@@ -61,6 +61,11 @@ func main() {
 		broken("contracts-package", "package internal/executor/contracts not loaded")
 	} else {
 		extractTxFsm(contracts, genDir)
+		if exe := byPath["github.com/meshplus/bitxhub/internal/executor"]; exe != nil {
+			extractContractMethods(exe, contracts, genDir)
+		} else {
+			broken("contractMethods", "package internal/executor not loaded")
+		}
 	}
 	sort.Slice(facts.Broken, func(i, j int) bool { return facts.Broken[i]["name"] < facts.Broken[j]["name"] })
 	b, _ := json.MarshalIndent(facts, "", " ")
